@@ -33,6 +33,12 @@ def full_alphabet():
          'kw': {'quantity': '10 mg', 'total_quantity': '2 mL'}},
         {'op': 'create_solution', 'solute': 'nacl', 'solvent': 'water', 'name': 'S',
          'kw': {'concentration': '100 M', 'total_quantity': '2 mL'}},             # unreachable
+        {'op': 'create_solution', 'solute': ['nacl', 'na2so4'], 'solvent': 'water', 'name': 'S',
+         'kw': {'concentration': ['0.2 M', '0.1 M'], 'total_quantity': '3 mL'}},
+        {'op': 'create_solution', 'solute': ['nacl', 'na2so4'], 'solvent': 'water', 'name': 'S',
+         'kw': {'concentration': ['100 M', '0.1 M'], 'total_quantity': '3 mL'}},    # unreachable, list form
+        {'op': 'create_solution', 'solute': ['nacl', 'na2so4'], 'solvent': 'B', 'name': 'S',
+         'kw': {'quantity': ['5 mg', '2 mg'], 'total_quantity': '30 mL'}},          # the solvent container runs short
         {'op': 'create_solution_from', 'src': 'B', 'solute': 'nacl', 'conc': '0.05 M', 'solvent': 'dmso', 'q': '2 mL',
          'name': 'F'},
         {'op': 'create_solution_from', 'src': 'B', 'solute': 'nacl', 'conc': '5 M', 'solvent': 'dmso', 'q': '2 mL',
@@ -323,13 +329,88 @@ def boundaries(col, pp):
     col.sample({'boundary_case': cases[len(cases) // 2]})
 
 
+def _program_children(prog_idx):
+    """Bake every one-step extension of a program; judge every object the bake returns."""
+    from pmc import e2
+    pp, vidx, voc = _G['pp'], _G['vidx'], _G['voc']
+    program = [voc[i] for i in prog_idx]
+    out = []
+    for ai, act in enumerate(voc):
+        if not e2.enabled(program, act):
+            continue
+        b = e2.bake(pp, vidx, program + [act])
+        why = None
+        if b['ok']:
+            for name, o in sorted(b['results'].items()):
+                units = [(None, o)] if not e1.is_plate(o) else [((r + 1, c + 1), o.wells[r, c])
+                                                                for r in range(o.wells.shape[0])
+                                                                for c in range(o.wells.shape[1])]
+                for rc, c in units:
+                    w = monitors.sane_container(pp, c)
+                    if w:
+                        why = (name, rc, w)
+                        break
+                if why:
+                    break
+        out.append((ai, b['ok'], why))
+    return out
+
+
+def recipe_programs(col, pp, vidx, depth):
+    """(c) every recipe program of the E2 vocabulary up to `depth` steps: every object a bake hands out is possible."""
+    from pmc import e2
+    voc = e2.vocabulary()
+    _G.update(pp=pp, vidx=vidx, voc=voc)
+    frontier, bakes, reported = [()], 0, set()
+    for level in range(depth):
+        res = par.pmap(_program_children, frontier, chunk=1 if len(frontier) < 2000 else None)
+        nxt = []
+        for p, out in zip(frontier, res):
+            for ai, ok, why in out:
+                bakes += 1
+                if ok and why is None:
+                    nxt.append(p + (ai,))      # an impossible state is reported once, where it first appears
+                if why:
+                    act = voc[ai]
+                    kind = 'negative-contents' if 'negative' in why[2] else 'over-capacity'
+                    sig = f"recipe {act['op']} | {kind} | step={e2.step_kind(act)}"
+                    program = [voc[i] for i in p] + [act]
+                    col.add([V(sig, f"bake of {[e1.act_str(a) for a in program]} returned {why[0]}"
+                                    f"{'' if why[1] is None else list(why[1])} with {why[2]}",
+                               {'program': program, 'vidx': vidx})])
+        frontier = nxt
+    col.count('transitions', bakes)
+    col.count('traces', bakes)
+    col.count('evaluations', bakes)
+    col.count('states', len(frontier))
+    col.cov.setdefault('recipe_programs', []).append({'valuation': vidx, 'depth': depth, 'bakes': bakes})
+
+
+def replay_program(pp, case):
+    from pmc import e2
+    _G.update(pp=pp, vidx=case['vidx'], voc=case['program'])
+    out = []
+    b = e2.bake(pp, case['vidx'], case['program'])
+    if b['ok']:
+        act = case['program'][-1]
+        for name, o in sorted(b['results'].items()):
+            units = [o] if not e1.is_plate(o) else list(o.wells.flatten())
+            for c in units:
+                w = monitors.sane_container(pp, c)
+                if w:
+                    kind = 'negative-contents' if 'negative' in w else 'over-capacity'
+                    out.append(V(f"recipe {act['op']} | {kind} | step={e2.step_kind(act)}", w, case))
+    return out
+
+
 def run(col):
     pp = env.load()
     col.rule = ("(a) state-sanity monitor (amounts >= 0, 0 <= volume <= capacity) on every object returned along every "
                 "history of the full operation menu incl. infeasible requests, depth 2 (quick) / 3 (thorough), plus the "
                 "C01 geometry/unit sweeps; (b) boundary enumeration: for every operation and feasibility constraint the "
                 "requests below / at / above the boundary, directly and as a recipe step, classified must-accept / "
-                "must-refuse(ValueError) / don't-care. Non-trivial = distinct (feature, outcome) classes")
+                "must-refuse(ValueError) / don't-care; (c) the same sanity judgement on every object handed out by the bake "
+                "of every recipe program over the E2 vocabulary, depth 2 (quick) / 3 (thorough). Non-trivial = distinct (feature, outcome) classes")
     col.assumptions += ["'at the boundary' is must-accept only where the boundary is an exact decimal of the request",
                         "a refused request may be refused with any ValueError subclass (numpy LinAlgError is one)"]
     boundaries(col, pp)
@@ -340,10 +421,13 @@ def run(col):
         e1.Explorer(pp, v, e1.W_DEFAULT, e1.seed_history_P(), alphabets.geometry_sweep(), MONS, 'G/S0').run(1, col)
         e1.Explorer(pp, v, e1.W_DEFAULT, e1.seed_history_P(), alphabets.unit_sweep(), MONS, 'U/S0').run(1, col)
         e1.Explorer(pp, v, W_CAP, [], capacity_alphabet(), MONS, 'K').run(3 if col.tier == 'quick' else 4, col)
+        recipe_programs(col, pp, v, 2 if col.tier == 'quick' else 3)
 
 
 def replay(case):
     pp = env.load()
+    if 'program' in case:
+        return replay_program(pp, case)
     if 'case' in case and 'feature' in case.get('case', {}):
         _G.update(pp=pp)
         return run_case(case['case'], case['vidx'])[0]
